@@ -2421,6 +2421,9 @@ bool GrothVSSHE::Verify_interactive
 			throw false;
 	
 		// check whether $E_d\in\mathcal{C}_{pk}$
+		if ((mpz_cmp_ui(E_d.first, 0L) <= 0) || (mpz_cmp(E_d.first, p) >= 0) ||
+			(mpz_cmp_ui(E_d.second, 0L) <= 0) || (mpz_cmp(E_d.second, p) >= 0))
+				throw false;
 		mpz_powm(foo, E_d.first, q, p);
 		mpz_powm(bar, E_d.second, q, p);
 		if (mpz_cmp_ui(foo, 1L) || mpz_cmp_ui(bar, 1L))
@@ -2591,6 +2594,9 @@ bool GrothVSSHE::Verify_interactive_publiccoin
 			throw false;
 	
 		// check whether $E_d\in\mathcal{C}_{pk}$
+		if ((mpz_cmp_ui(E_d.first, 0L) <= 0) || (mpz_cmp(E_d.first, p) >= 0) ||
+			(mpz_cmp_ui(E_d.second, 0L) <= 0) || (mpz_cmp(E_d.second, p) >= 0))
+				throw false;
 		mpz_powm(foo, E_d.first, q, p);
 		mpz_powm(bar, E_d.second, q, p);
 		if (mpz_cmp_ui(foo, 1L) || mpz_cmp_ui(bar, 1L))
@@ -2766,6 +2772,9 @@ bool GrothVSSHE::Verify_noninteractive
 			throw false;
 	
 		// check whether $E_d\in\mathcal{C}_{pk}$
+		if ((mpz_cmp_ui(E_d.first, 0L) <= 0) || (mpz_cmp(E_d.first, p) >= 0) ||
+			(mpz_cmp_ui(E_d.second, 0L) <= 0) || (mpz_cmp(E_d.second, p) >= 0))
+				throw false;
 		mpz_powm(foo, E_d.first, q, p);
 		mpz_powm(bar, E_d.second, q, p);
 		if (mpz_cmp_ui(foo, 1L) || mpz_cmp_ui(bar, 1L))
